@@ -148,16 +148,19 @@ Proof. intros Hw Hz. unfold asym_weights. rewrite map_length, !combine_length. l
 Lemma irls_final fuel p p1 lam (w y : list R) : forall z ww ww' z',
   (4 <= length y)%nat -> length w = length y -> length z = length y -> (1 <= fuel)%nat ->
   irls OpsR fuel p p1 lam w y z ww = (ww', z') ->
-  ws2d OpsR y lam ww' = z' /\ length z' = length y /\ length ww' = length y.
+  ws2d OpsR y lam ww' = z' /\ length z' = length y /\ length ww' = length y /\
+  exists zz, length zz = length y /\ ww' = asym_weights OpsR p p1 w y zz.
 Proof.
   induction fuel as [|f IH]; intros z ww ww' z' Hn Hw Hz Hf H; [lia|]. cbn [irls] in H.
   set (wa := asym_weights OpsR p p1 w y z) in *.
   assert (length wa = length y) as Lwa by (apply asym_weights_length; assumption).
   assert (length (ws2d OpsR y lam wa) = length y) as Lz by (apply ws2d_length; assumption).
   destruct (unchanged OpsR (ws2d OpsR y lam wa) z) eqn:U.
-  - injection H as <- <-. split; [|split; assumption]. apply unchanged_eq; [lia|exact U].
+  - injection H as <- <-. split; [apply unchanged_eq; [lia|exact U]|]. split; [assumption|]. split; [assumption|].
+    exists z. split; [assumption|reflexivity].
   - destruct f as [|f].
-    + cbn [irls] in H. injection H as <- <-. split; [reflexivity|split; assumption].
+    + cbn [irls] in H. injection H as <- <-. split; [reflexivity|]. split; [assumption|]. split; [assumption|].
+      exists z. split; [assumption|reflexivity].
     + apply (IH (ws2d OpsR y lam wa) wa ww' z' Hn Hw Lz ltac:(lia) H).
 Qed.
 
@@ -175,7 +178,7 @@ Proof.
   intros Hn Hw p1. unfold asym_fit. cbn [fsub f1 OpsR]. fold p1.
   destruct (irls OpsR 10 p p1 lam w y (zeros OpsR (length y)) (zeros OpsR (length y))) as [ww z'] eqn:E.
   assert (length (zeros OpsR (length y)) = length y) as Lz by (unfold zeros; apply repeat_length).
-  destruct (irls_final 10 p p1 lam w y _ _ ww z' Hn Hw Lz ltac:(lia) E) as (F & _ & _).
+  destruct (irls_final 10 p p1 lam w y _ _ ww z' Hn Hw Lz ltac:(lia) E) as (F & _).
   split; [exact F|]. intros Hc. rewrite F. rewrite <- Hc. symmetry. exact F.
 Qed.
 
